@@ -521,15 +521,50 @@ EXPECTED_ERROR_GUARDS = {
 }
 
 
-def template_error_guards(run, templates: typing.Tuple[str, ...]):
+# the same obligation for the C++ and Python templates (error exits of the codecs; ValueError exits of the Python setters).
+# Key: (language, template, macro, error text); value: the Jinja conditions under which the statement is emitted.
+ERROR_EMISSION_RE = {
+    "c": r"return -(NUNAVUT_ERROR_\w+)",
+    "cpp": r"return -nunavut::support::Error::(\w+)",
+    "py": r"raise (_des_\.FormatError|ValueError)\(",
+}
+EXPECTED_ERROR_GUARDS_BY_LANG: typing.Dict[str, dict] = {
+    "cpp": {
+        ("serialization.j2", "_serialize_impl", "SerializationBufferTooSmall"): set(),
+        ("serialization.j2", "_serialize_impl", "RepresentationBadUnionTag"): {("t.inner_type is UnionType", True), ("t.inner_type is StructureType", False)},
+        ("serialization.j2", "_serialize_variable_length_array", "SerializationBadArrayLength"): set(),
+        ("deserialization.j2", "_deserialize_impl", "RepresentationBadUnionTag"): {("t.inner_type is UnionType", True), ("t.inner_type is StructureType", False)},
+        ("deserialization.j2", "_deserialize_variable_length_array", "SerializationBadArrayLength"): set(),
+        ("deserialization.j2", "_deserialize_composite", "RepresentationBadDelimiterHeader"): {("t is DelimitedType", True)},
+    },
+    "py": {
+        # invalid union tag / array length prefix beyond the capacity / delimiter header beyond the remaining data
+        ("deserialization.j2", "deserialize", "_des_-FormatError-0"): {("t is UnionType", True), ("t is StructureType", False)},
+        ("deserialization.j2", "_deserialize_variable_length_array", "_des_-FormatError-0"): set(),
+        ("deserialization.j2", "_deserialize_any", "_des_-FormatError-0"): {("t is VoidType", False), ("t is CompositeType", True), ("t is DelimitedType", True)},
+        # data objects (C18): array length, composite type check (structure), second union option, integer range, float range,
+        # composite type check (union)
+        ("base.j2", "assign_array", "ValueError-0"): set(),
+        ("base.j2", "data_schema", "ValueError-0"): {("not type.inner_type is UnionType", True), ("f.data_type is CompositeType", True), ("f.data_type is BooleanType", False)},
+        ("base.j2", "data_schema", "ValueError-1"): {("not type.inner_type is UnionType", False)},
+        ("base.j2", "data_schema", "ValueError-2"): {("f.data_type is IntegerType", True), ("f.data_type is BooleanType", False)},
+        ("base.j2", "data_schema", "ValueError-3"): {("f.data_type is FloatType", True), ("f.data_type.bit_length < 64", True), ("f.data_type is BooleanType", False)},
+        ("base.j2", "data_schema", "ValueError-4"): {("f.data_type is CompositeType", True), ("f.data_type is BooleanType", False)},
+    },
+}
+
+
+def template_error_guards(run, templates: typing.Tuple[str, ...], lang: str = "c", expected: typing.Optional[dict] = None, dump: typing.Optional[dict] = None):
     import re as _re
     from vk import efx, report as R
     from nunavut.jinja.jinja2 import nodes as N
+    global EXPECTED_ERROR_GUARDS
+    table = EXPECTED_ERROR_GUARDS if lang == "c" else (expected if expected is not None else EXPECTED_ERROR_GUARDS_BY_LANG[lang])
     seen = set()
     for tname in templates:
-        path = SRC / "nunavut/lang/c/templates" / tname
+        path = SRC / f"nunavut/lang/{lang}/templates" / tname
         tree = efx.parse_template(SRC, path)
-        run.add_function(f"nunavut/lang/c/templates/{tname} (error returns)")
+        run.add_function(f"nunavut/lang/{lang}/templates/{tname} (error exits)")
         for mac in tree.find_all(N.Macro):
             out: list = []
 
@@ -551,8 +586,11 @@ def template_error_guards(run, templates: typing.Tuple[str, ...]):
                 if isinstance(n, N.Output):
                     for e in n.nodes:
                         if isinstance(e, N.TemplateData):
-                            for m in _re.finditer(r"return -(NUNAVUT_ERROR_\w+)", e.data):
-                                out.append((m.group(1), guards))
+                            for m in _re.finditer(ERROR_EMISSION_RE[lang], e.data):
+                                lab = _re.sub(r"[^A-Za-z0-9_]+", "-", m.group(m.lastindex).strip())
+                                if lang == "py":  # the messages are f-strings with template holes: statements are told apart by their ordinal in the macro
+                                    lab = f"{lab}-{sum(1 for x in out if x[0].startswith(lab))}"
+                                out.append((lab, guards))
                     return
                 for ch in n.iter_child_nodes():
                     walk(ch, guards)
@@ -561,17 +599,26 @@ def template_error_guards(run, templates: typing.Tuple[str, ...]):
                 walk(b, ())
             for err, g in out:
                 key = (tname, mac.name, err)
+                if dump is not None:
+                    dump.setdefault(key, []).append(set(g))
+                    continue
                 seen.add(key)
-                name = f"{tname}:{mac.name}#{err}-is-returned-for-every-type-of-its-case"
-                want = EXPECTED_ERROR_GUARDS.get(key)
-                ok = want is not None and set(g) == want
+                name = (f"{tname}:{mac.name}#{err}-is-returned-for-every-type-of-its-case" if lang == "c" else f"{lang}/{tname}:{mac.name}#{err}-exit-is-emitted-for-every-type-of-its-case")
+                want = table.get(key)
+                if isinstance(want, list):  # several statements with the same text in one macro: each must match one entry
+                    ok = set(g) in want
+                    want = set(g) if ok else want[0]
+                else:
+                    ok = want is not None and set(g) == want
                 run.add_check(name, ok, "E-FX guards (Jinja AST)", 0, f"guards {sorted(g)}")
                 if not ok:
                     extra = sorted(set(g) - (want or set()))
-                    run.fail(R.Failure(name, "post", f"{tname}: `return -{err}` in macro {mac.name} is emitted only under {extra or sorted(g)}: types outside that condition lose the check "
+                    run.fail(R.Failure(name, "post", f"{lang}/{tname}: the `{err}` error exit in macro {mac.name} is emitted only under {extra or sorted(g)}: types outside that condition lose the check "
                                        "(a template branch on a type parameter; no corpus type need reach it)", {"guards": sorted(g), "expected": sorted(want or [])}, False))
-    for key in EXPECTED_ERROR_GUARDS:
+    if dump is not None:
+        return
+    for key in table:
         if key[0] in templates and key not in seen:
-            name = f"{key[0]}:{key[1]}#{key[2]}-is-returned-for-every-type-of-its-case"
+            name = f"{key[0]}:{key[1]}#{key[2]}-is-returned-for-every-type-of-its-case" if lang == "c" else f"{lang}/{key[0]}:{key[1]}#{key[2]}-exit-is-emitted-for-every-type-of-its-case"
             run.add_check(name, False, "E-FX guards (Jinja AST)", 0, "no such return statement in the template")
             run.fail(R.Failure(name, "post", f"{key[0]}: macro {key[1]} no longer returns -{key[2]}", {}, False))
